@@ -42,6 +42,11 @@ enum Follow {
     Append,
     Overwrite,
     CopyToSibling,
+    /// open + read the file: created / modified must not move
+    Read,
+    /// the setters run while an append handle (opened before them) is still open; it is written
+    /// to and dropped afterwards: on the in-memory backend `created` must keep the value set
+    AppendHandleOpenAcrossSetters,
 }
 
 struct Case {
@@ -98,7 +103,7 @@ pub fn run_c19(ctx: &Ctx) -> i32 {
         for is_dir in [false, true] {
             for (ti, _) in ts.iter().enumerate() {
                 for seq in &seqs {
-                    for follow in [Follow::Nothing, Follow::Append, Follow::Overwrite, Follow::CopyToSibling] {
+                    for follow in [Follow::Nothing, Follow::Append, Follow::Overwrite, Follow::CopyToSibling, Follow::Read, Follow::AppendHandleOpenAcrossSetters] {
                         if is_dir && follow != Follow::Nothing {
                             continue;
                         }
@@ -115,6 +120,7 @@ pub fn run_c19(ctx: &Ctx) -> i32 {
                             replay: json!({"engine": "time", "case": case.label, "kind": kind, "setters": seq.iter().map(|f| fname(*f)).collect::<Vec<_>>(), "first_value": ts[ti].0, "follow_up": format!("{:?}", follow)}),
                         };
                         let mut set_values: BTreeMap<&'static str, SystemTime> = BTreeMap::new();
+                        let mut open_handle = if follow == Follow::AppendHandleOpenAcrossSetters { p.append_file().ok() } else { None };
                         for (k, f) in seq.iter().enumerate() {
                             let (tname, tv) = ts[(ti + k) % ts.len()];
                             let before = match PathApi::metadata(&p) {
@@ -167,6 +173,24 @@ pub fn run_c19(ctx: &Ctx) -> i32 {
                                 }
                             }
                         }
+                        if let Some(mut h) = open_handle.take() {
+                            use std::io::Write;
+                            let _ = h.write_all(b"d");
+                            drop(h);
+                            if let Ok(am) = PathApi::metadata(&p) {
+                                if case.mem_based {
+                                    if let Some(t) = set_values.get("created") {
+                                        if am.created != Some(*t) {
+                                            vio.push(mk("open-append-handle-lost-created".into(), format!("created was set to {:?} while an append handle was open; after the handle was written and dropped metadata reports {:?}", t, am.created)));
+                                        }
+                                    }
+                                }
+                                if am.len != 4 {
+                                    vio.push(mk("open-append-handle-len".into(), format!("len after the append {}", am.len)));
+                                }
+                            }
+                            continue;
+                        }
                         // bytes untouched by the setters
                         if !is_dir {
                             match PathApi::read_all(&p) {
@@ -213,6 +237,16 @@ pub fn run_c19(ctx: &Ctx) -> i32 {
                                     if let Ok(am) = PathApi::metadata(&p) {
                                         if am.len != 2 {
                                             vio.push(mk("overwrite-len".into(), format!("len after overwrite {}", am.len)));
+                                        }
+                                    }
+                                }
+                            }
+                            Follow::AppendHandleOpenAcrossSetters => {}
+                            Follow::Read => {
+                                if PathApi::read_all(&p).is_ok() {
+                                    if let (Ok(bm), Ok(am)) = (&before, PathApi::metadata(&p)) {
+                                        if am.created != bm.created || am.modified != bm.modified || am.len != bm.len {
+                                            vio.push(mk("read-changed-created-or-modified".into(), format!("reading the file changed created/modified/len: {:?} -> {:?}", bm, am)));
                                         }
                                     }
                                 }
